@@ -62,7 +62,7 @@ impl<'a> MakeWriter<'a> for Sink {
 }
 
 // ---------------------------------------------------------------- callsites
-const FIELDS: &[&str] = &["message", "fa", "fb", "we\"ird", "back\\slash", "ctl\u{1}x", "uni\u{2028}z", "crab\u{1f980}", "dotted.name", "r#ref", "r#return"];
+const FIELDS: &[&str] = &["message", "fa", "fb", "we\"ird", "back\\slash", "ctl\u{1}x", "uni\u{2028}z", "crab\u{1f980}", "dotted.name", "r#ref", "r#return", "login", "log_level"];
 
 struct Cs {
     meta: &'static Metadata<'static>,
@@ -145,6 +145,10 @@ enum Val {
     Debug(String),
     Bytes(Vec<u8>),
     Err(Box<dyn std::error::Error + 'static>),
+    // the other three error trait objects that implement Value
+    ErrSend(Box<dyn std::error::Error + Send + 'static>),
+    ErrSync(Box<dyn std::error::Error + Sync + 'static>),
+    ErrSendSync(Box<dyn std::error::Error + Send + Sync + 'static>),
     Boom,
 }
 fn val_of(v: &Value) -> Val {
@@ -166,6 +170,9 @@ fn val_of(v: &Value) -> Val {
         "debug" => Val::Debug(s.to_string()),
         "bytes" => Val::Bytes(s.as_bytes().to_vec()),
         "error" => Val::Err(Box::new(MyErr(s.to_string()))),
+        "error_send" => Val::ErrSend(Box::new(MyErr(s.to_string()))),
+        "error_sync" => Val::ErrSync(Box::new(MyErr(s.to_string()))),
+        "error_send_sync" => Val::ErrSendSync(Box::new(MyErr(s.to_string()))),
         "boom" => Val::Boom,
         t => panic!("value type {t}"),
     }
@@ -179,6 +186,9 @@ fn with_values<R>(vals: &[(usize, Val)], meta: &'static Metadata<'static>, f: im
     let boom = field::debug(Boom);
     let bytes: Vec<Option<&[u8]>> = vals.iter().map(|(_, v)| if let Val::Bytes(b) = v { Some(b.as_slice()) } else { None }).collect();
     let errs: Vec<Option<&(dyn std::error::Error + 'static)>> = vals.iter().map(|(_, v)| if let Val::Err(e) = v { Some(&**e) } else { None }).collect();
+    let errs_s: Vec<Option<&(dyn std::error::Error + Send + 'static)>> = vals.iter().map(|(_, v)| if let Val::ErrSend(e) = v { Some(&**e) } else { None }).collect();
+    let errs_y: Vec<Option<&(dyn std::error::Error + Sync + 'static)>> = vals.iter().map(|(_, v)| if let Val::ErrSync(e) = v { Some(&**e) } else { None }).collect();
+    let errs_sy: Vec<Option<&(dyn std::error::Error + Send + Sync + 'static)>> = vals.iter().map(|(_, v)| if let Val::ErrSendSync(e) = v { Some(&**e) } else { None }).collect();
     let mut items: Vec<(&field::Field, Option<&dyn field::Value>)> = vec![];
     for (n, (i, v)) in vals.iter().enumerate() {
         let r: &dyn field::Value = match v {
@@ -193,6 +203,9 @@ fn with_values<R>(vals: &[(usize, Val)], meta: &'static Metadata<'static>, f: im
             Val::Debug(_) => dbg[n].as_ref().unwrap(),
             Val::Bytes(_) => bytes[n].as_ref().unwrap(),
             Val::Err(_) => errs[n].as_ref().unwrap(),
+            Val::ErrSend(_) => errs_s[n].as_ref().unwrap(),
+            Val::ErrSync(_) => errs_y[n].as_ref().unwrap(),
+            Val::ErrSendSync(_) => errs_sy[n].as_ref().unwrap(),
             Val::Boom => &boom,
         };
         items.push((&keys[*i], Some(r)));
